@@ -104,3 +104,32 @@ let () =
       String.concat "|" outs | _ -> raise (Bad_op "domhist"));
   (* C16: the invariant is evaluated by the harness on the real counters; the expected verdict is "ok" *)
   reg "arcinv" (function _ -> "ok")
+
+(* C18: a schedule of the publish-once cache replayed in the model (Model/Cas.v, strong CAS) *)
+let () =
+  reg "cassched" (function n :: sched :: _ ->
+      let n = ios n in
+      let grants = Stdlib.List.map (fun g ->
+          let spur = String.length g > 0 && g.[String.length g - 1] = '!' in
+          let t = ios (if spur then String.sub g 0 (String.length g - 1) else g) in
+          (nat_of_int t, spur)) (if sched = "" then [] else String.split_on_char ',' sched) in
+      (* per-thread outcome while replaying: what each step of the model does *)
+      let st = ref (Cas.init (nat_of_int n)) in
+      let outs = Array.make n "" in
+      let add i s = outs.(i) <- (if outs.(i) = "" then s else outs.(i) ^ "+" ^ s) in
+      Stdlib.List.iter (fun (tid, spur) ->
+          let i = int_of_nat tid in
+          let before = Stdlib.List.nth (!st).Cas.thr i in
+          let cell_before = (!st).Cas.cell in
+          st := Cas.step Cas.Strong !st tid spur;
+          let after = Stdlib.List.nth (!st).Cas.thr i in
+          (match before, after with
+           | Cas.TStart, Cas.TDone _ -> add i "hit"
+           | Cas.TStart, Cas.TAlloc _ -> add i "miss"
+           | Cas.TAlloc own, Cas.TDone r -> if cell_before = None && r = own then add i "win" else add i "lose"
+           | _, Cas.TCrash -> add i "CRASH"
+           | _, _ -> add i "?")) grants;
+      let crash = Stdlib.List.exists (fun t -> t = Cas.TCrash) (!st).Cas.thr in
+      let all_done = Stdlib.List.for_all (function Cas.TDone _ -> true | _ -> false) (!st).Cas.thr in
+      String.concat "," (Array.to_list outs) ^ ";vals=" ^ (if crash || not all_done then "WRONG" else "ok") ^ ";leak=0;cas=strong"
+    | _ -> raise (Bad_op "cassched"))
